@@ -14,6 +14,7 @@ import ast
 
 from ..astutil import calls_in, call_name, where
 from ..cfg import build_cfg, enclosing_handlers
+from ..logic import known
 from ..model import AnalysisError, unparse, walk_no_nested
 from .rules_order import compute_before_open, is_write_open
 
@@ -87,21 +88,28 @@ def run(prog, rep):
         f = cls.lookup_method("deferred_load")
         rep.saw_function(f)
         g = build_cfg(f)
-        reg = _node_with(g, lambda n: n.kind == "stmt" and isinstance(n.ast, ast.Assign) and unparse(n.ast.targets[0]) == "self.loading[url]")
-        start = _node_with(g, lambda n: n.kind == "stmt" and unparse(n.ast) == "self.loading[url].start()")
+        me, url = f.params[0], f.params[1]
+        entry = "%s.loading[%s]" % (me, url)
+        reg = _node_with(g, lambda n: n.kind == "stmt" and isinstance(n.ast, ast.Assign) and unparse(n.ast.targets[0]) == entry)
+        start = _node_with(g, lambda n: n.kind == "stmt" and unparse(n.ast) == entry + ".start()")
         ok = len(reg) == 1 and len(start) == 1 and g.dominates(reg[0], start[0])
         if ok:
             v = reg[0].ast.value
             ok = isinstance(v, ast.Call) and call_name(v).endswith("Thread") and \
-                any(k.arg == "target" and unparse(k.value) == "self._load" for k in v.keywords) and \
-                any(k.arg == "args" and unparse(k.value) == "(url,)" for k in v.keywords)
+                any(k.arg == "target" and unparse(k.value) == "%s._load" % me for k in v.keywords) and \
+                any(k.arg == "args" and unparse(k.value) == "(%s,)" % url for k in v.keywords)
         rep.check(ok, "ORDER-3", "%s.deferred_load registers the loader before starting it" % cname, "ok",
                   "%s.deferred_load does not (register Thread(target=self._load, args=(url,)) under loading[url], then start it)" % cname, f.where,
                   witness="load() called right after deferred_load() does not find the running loader and loads a second time")
         if len(reg) == 1:
-            conds = [(unparse(t), pol) for t, pol, _ in g.dominating_conditions(reg[0])]
-            rep.check(("url in self or url in self.loading", "false") in conds, "ORDER-3", "%s.deferred_load only for unknown URLs" % cname, str(conds),
-                      "the loader is started although the URL may be loaded or loading already (guards %s)" % conds, f.where,
+            def classify(leaf, me=me, url=url):
+                if isinstance(leaf, ast.Compare) and len(leaf.ops) == 1 and isinstance(leaf.ops[0], ast.In) and unparse(leaf.left) == url:
+                    c0 = unparse(leaf.comparators[0])
+                    return {me: "LOADED", "%s.loading" % me: "LOADING"}.get(c0)
+                return None
+            good = known(g, reg[0], classify, lambda a: not a["LOADED"] and not a["LOADING"], ["LOADED", "LOADING"])
+            rep.check(good, "ORDER-3", "%s.deferred_load only for unknown URLs" % cname, "every path to the registration knows: not loaded, not loading",
+                      "the loader is started although the URL may be loaded or loading already", f.where,
                       witness="two loaders for one URL; the second overwrites the registration of the first")
         # ------------------------------------------------------------- ORDER-4
         rep.rule("ORDER-4", "load: inside `url in self.loading`: self.loading[url].join(), then self.loading.pop(url, None), then the "
@@ -109,20 +117,25 @@ def run(prog, rep):
         f = cls.lookup_method("load")
         rep.saw_function(f)
         g = build_cfg(f)
-        join = _node_with(g, lambda n: n.kind == "stmt" and unparse(n.ast) == "self.loading[url].join()")
-        pop = _node_with(g, lambda n: n.kind == "stmt" and unparse(n.ast).startswith("self.loading.pop(url"))
-        retry = [n for n in g.nodes if any(call_name(c) == "self.load" for r in n.expr_roots() for c in calls_in(r))]
+        me, url = f.params[0], f.params[1]
+        join = _node_with(g, lambda n: n.kind == "stmt" and unparse(n.ast) == "%s.loading[%s].join()" % (me, url))
+        pop = _node_with(g, lambda n: n.kind == "stmt" and unparse(n.ast).startswith("%s.loading.pop(%s" % (me, url)))
+        retry = [n for n in g.nodes if any(call_name(c) == "%s.load" % me for r in n.expr_roots() for c in calls_in(r))]
         ok = len(join) == 1 and len(pop) == 1 and len(retry) == 1 and g.dominates(join[0], pop[0]) and g.dominates(pop[0], retry[0])
         rep.check(ok, "ORDER-4", "%s.load: join, then pop, then retry" % cname, "ok",
                   "%s.load does not join the loader before removing its registration and retrying" % cname, f.where,
                   witness="load() returns None / loads again while the loader thread is still running")
         if ok:
-            conds = [(unparse(t), pol) for t, pol, _ in g.dominating_conditions(join[0])]
-            rep.check(("url in self.loading", "true") in conds, "ORDER-4", "%s.load joins only registered loaders" % cname, "ok",
+            def classify4(leaf, me=me, url=url):
+                if isinstance(leaf, ast.Compare) and len(leaf.ops) == 1 and isinstance(leaf.ops[0], ast.In) and unparse(leaf.left) == url \
+                        and unparse(leaf.comparators[0]) == "%s.loading" % me:
+                    return "LOADING"
+                return None
+            rep.check(known(g, join[0], classify4, lambda a: a["LOADING"], ["LOADING"]), "ORDER-4", "%s.load joins only registered loaders" % cname, "ok",
                       "join is not guarded by `url in self.loading`", f.where)
             # after the retry nothing but returning its value: no second _load on that path
             later = [n for n in g.nodes if g.reaches(retry[0], n, skip_kinds=("exc",)) and
-                     any(call_name(c) == "self._load" for r in n.expr_roots() for c in calls_in(r))]
+                     any(call_name(c) == "%s._load" % me for r in n.expr_roots() for c in calls_in(r))]
             rep.check(not later, "ORDER-4", "%s.load: the retry ends the call" % cname, "ok",
                       "after the retry %s.load falls through to a second synchronous _load" % cname, f.where)
         # ------------------------------------------------------------- ORDER-5
@@ -132,7 +145,7 @@ def run(prog, rep):
         f = cls.lookup_method("_load")
         rep.saw_function(f)
         g = build_cfg(f)
-        pub = _node_with(g, lambda n: n.kind == "stmt" and isinstance(n.ast, ast.Assign) and unparse(n.ast.targets[0]) == "self[url]")
+        pub = _node_with(g, lambda n: n.kind == "stmt" and isinstance(n.ast, ast.Assign) and unparse(n.ast.targets[0]) == "%s[%s]" % (f.params[0], f.params[1]))
         parse = _node_with(g, lambda n: n.kind == "stmt" and ".from_file(" in unparse(n.ast))
         fin = _node_with(g, lambda n: n.kind == "stmt" and unparse(n.ast).endswith(".finalize()"))
         rep.check(len(pub) == 1 and len(parse) == 1 and len(fin) == 1, "ORDER-5", "%s._load: parse, finalize, publish" % cname, "ok",
@@ -154,9 +167,9 @@ def run(prog, rep):
             if m.name in ("_load",):
                 continue
             for n in walk_no_nested(m.node):
-                if isinstance(n, ast.Assign) and any(isinstance(t, ast.Subscript) and unparse(t.value) == "self" for t in n.targets):
+                if isinstance(n, ast.Assign) and any(isinstance(t, ast.Subscript) and m.params and unparse(t.value) == m.params[0] for t in n.targets):
                     rep.fail("ORDER-5", "%s|table-store" % m.short, "%s stores into the shared table" % m.short, where(m, n))
-                if isinstance(n, ast.Call) and unparse(n.func) in ("self.update", "self.setdefault", "self.__setitem__"):
+                if isinstance(n, ast.Call) and m.params and unparse(n.func) in tuple("%s.%s" % (m.params[0], x) for x in ("update", "setdefault", "__setitem__")):
                     rep.fail("ORDER-5", "%s|table-update" % m.short, "%s updates the shared table" % m.short, where(m, n))
 
     # ----------------------------------------------------------------- DOM-7
